@@ -108,6 +108,55 @@ WeightedMeanRel(Mul(_, _), Add(_, _), Same(_, _), zero, muk, mix, k, w) ==
 \* ------------------------------------------------------------- ideal gas
 DensityRel(Mul(_, _), Same(_, _), rho, P, T, kB) == Same(Mul(Mul(rho, kB), T), P)
 
+\* ------------------------------------------ tabulated temperature T(P)
+\* A tabulated temperature (array with pressure points, file with a pressure column) is a list of NODES
+\* [l |-> position, T |-> temperature]; the position is a monotone function of log P (larger = deeper),
+\* listed surface first (strictly decreasing).  "One entry per layer ALIGNED with the pressure profile":
+\* the entry of layer k belongs to the PRESSURE of layer k, wherever the grid lies relative to the table:
+\*   * a layer whose pressure is a node's takes that node's temperature;
+\*   * a layer DEEPER than the deepest node takes the temperature of the deepest node (the surface end of
+\*     the table), a layer HIGHER than the highest node that of the highest node (the top end): the
+\*     nearest end on each side, never the far one;
+\*   * a layer between two neighbouring nodes takes a temperature between theirs (inclusive; the statement
+\*     does not fix the interpolation rule).
+\* TableBrackets: the set of admissible [lo, hi] ranges for a layer at position lam.  slack = resolution of
+\* the logged positions (0: exact; > 0: a layer within slack of a node / an end may be on either side, and
+\* every reading is accepted).  ends = "nearest" (the property) | "swapped" (a wrong design: out-of-range
+\* layers take the FAR end) -- the latter only for expected counterexamples.
+NodesDecreasing(nd) == Len(nd) >= 2 /\ \A j \in 1..(Len(nd) - 1) : nd[j + 1].l < nd[j].l
+IMin2(a, b) == IF a < b THEN a ELSE b
+IMax2(a, b) == IF a < b THEN b ELSE a
+TableBrackets(nd, lam, slack, ends) ==
+    LET m  == Len(nd)
+        tb == IF ends = "swapped" THEN nd[m].T ELSE nd[1].T        \* exposed below (deeper than) the table
+        ta == IF ends = "swapped" THEN nd[1].T ELSE nd[m].T        \* exposed above the table
+        on == {j \in 1..m : nd[j].l = lam}
+    IN  IF slack = 0 /\ on # {} THEN {[lo |-> nd[j].T, hi |-> nd[j].T] : j \in on}
+        ELSE (IF lam >= nd[1].l - slack THEN {[lo |-> tb, hi |-> tb]} ELSE {})
+             \cup (IF lam <= nd[m].l + slack THEN {[lo |-> ta, hi |-> ta]} ELSE {})
+             \cup {[lo |-> IMin2(nd[j].T, nd[j + 1].T), hi |-> IMax2(nd[j].T, nd[j + 1].T)] :
+                      j \in {jj \in 1..(m - 1) : nd[jj].l + slack >= lam /\ lam >= nd[jj + 1].l - slack}}
+TableAlignedRel(nd, lam, Tk, slack, tol, ends) ==
+    \E b \in TableBrackets(nd, lam, slack, ends) : b.lo - tol <= Tk /\ Tk <= b.hi + tol
+\* How a grid may lie relative to a table that tells it the temperatures T[1..n] of its layers exactly
+\* (l2 = DOUBLED layer exponents, so that a point half a unit away from a layer is an integer):
+\*   table_inside_both : the grid reaches beyond the table on BOTH sides (first node just above layer 1, last node
+\*                       just below layer n, the layers in between are nodes);
+\*   table_inside_below / table_inside_above : on one side only;
+\*   table_beyond      : the table reaches beyond the grid on both sides (two further nodes with OTHER
+\*                       temperatures, which no layer may take).
+TableCovers(n) == {"table_beyond"} \cup (IF n >= 2 THEN {"table_inside_both", "table_inside_below", "table_inside_above"} ELSE {})
+TableNodes(cover, l2, T) ==
+    LET n     == Len(T)
+        first == [l |-> l2[1] - 1, T |-> T[1]]
+        last  == [l |-> l2[n] + 1, T |-> T[n]]
+        Mid(a, b) == [k \in 1..(b - a + 1) |-> [l |-> l2[a + k - 1], T |-> T[a + k - 1]]]
+    IN  CASE cover = "table_inside_both"  -> <<first>> \o Mid(2, n - 1) \o <<last>>
+          [] cover = "table_inside_below" -> <<first>> \o Mid(2, n)
+          [] cover = "table_inside_above" -> Mid(1, n - 1) \o <<last>>
+          [] cover = "table_beyond"       -> <<[l |-> l2[1] + 1, T |-> T[1] + 1]>> \o Mid(1, n)
+                                             \o <<[l |-> l2[n] - 1, T |-> T[n] + 1]>>
+
 \* ------------------------------------- components and the arrays they share
 \* A forward model is assembled from COMPONENTS of any built-in type (pressure grid, temperature
 \* profile, chemistry and its gases, contributions).  The model hands its OWN per-layer arrays to
@@ -127,8 +176,9 @@ RepeatableRel(first, second) ==
 \* npoint_nodes: surface, top and the layers in between as (P, T) nodes, no smoothing;
 \* isothermal: one number, expressible only if T is constant).  Guillot2010, a smoothed NPoint and a
 \* correlated Rodgers2000 cannot be told T; for them (binding B) T is whatever they expose.
+\* table_<cover>: a (P, T) table on its OWN pressure nodes which do not cover the grid / reach beyond it (below).
 TempComponentKinds(T) ==
-    {"array", "file", "rodgers_identity"}
+    {"array", "file", "rodgers_identity"} \cup TableCovers(Len(T))
     \cup (IF Len(T) >= 2 THEN {"array_ppoints", "file_pcol"} ELSE {})
     \cup (IF Len(T) <= 3 THEN {"npoint_nodes"} ELSE {})
     \cup (IF \A k \in 1..Len(T) : T[k] = T[1] THEN {"isothermal"} ELSE {})
